@@ -70,18 +70,18 @@ def get_expression_variables(
             sanitize_variable_names(expr, {}, aliases, template="_formulaic_{}"),
             mode="eval",
         )
-    variables = _get_ast_node_variables(expr, aliases or {})
-
-    if isinstance(context, LayeredMapping):
-        out = set()
-        for variable in variables:
-            variable.source = context.get_layer_name_for_key(variable.split(".", 1)[0])
-            out.add(variable)
-        return out
-    return set(variables)
+    return set(
+        _get_ast_node_variables(
+            expr,
+            aliases or {},
+            context if isinstance(context, LayeredMapping) else None,
+        )
+    )
 
 
-def _get_ast_node_variables(node: ast.AST, aliases: Mapping) -> list[Variable]:
+def _get_ast_node_variables(
+    node: ast.AST, aliases: Mapping, context: Optional[LayeredMapping] = None
+) -> list[Variable]:
     variables: list[Variable] = []
 
     todo = deque([node])
@@ -93,16 +93,18 @@ def _get_ast_node_variables(node: ast.AST, aliases: Mapping) -> list[Variable]:
         name = _get_ast_node_name(node)
         # An alias stands for the (quoted) object at the base of the name.
         base, _, attrs = name.partition(".")
-        name = ".".join(filter(None, (aliases.get(base, base), attrs)))
+        base = aliases.get(base, base)  # (may contain dots of its own)
+        name = ".".join(filter(None, (base, attrs)))
+        source = context.get_layer_name_for_key(base) if context is not None else None
         if isinstance(node, ast.Call):
-            variables.append(Variable(name, roles=["callable"]))
+            variables.append(Variable(name, roles=["callable"], source=source))
             if isinstance(node.func, ast.Attribute):
                 # A method call reads the object it is invoked on.
                 todo.append(node.func.value)
             todo.extend(node.args)
             todo.extend(node.keywords)
         else:
-            variables.append(Variable(name, roles=["value"]))
+            variables.append(Variable(name, roles=["value"], source=source))
 
     return variables
 
